@@ -50,6 +50,14 @@ def main():
         ids = [i for i in ids if i in args or i.split("/")[1] in args]
     repo = WORK + "/repo"
     os.makedirs(repo, exist_ok=True)
+    # warm-up: one full extraction of the unpatched copy, so that every member has a fingerprint for this path; afterwards cargo itself
+    # re-checks (and the driver re-emits) only the crates a patch changes and their dependents; all other fact files are the base tree's
+    sh("rsync -a --delete --exclude /target --exclude /.git /repo/ %s/" % repo)
+    r = sh("%s/bin/extract.sh %s/warm %s %s/.cache/target" % (V, WORK, repo, V))
+    if r.returncode:
+        print("WARM-UP FAILED", r.stderr[-600:])
+        return
+    prev_files = []
     for i in ids:
         out = os.path.join(OUT, i)
         if os.path.exists(out + "/COMPLETE") and not force:
@@ -60,16 +68,25 @@ def main():
         if a.returncode:
             print(i, "APPLY FAILED", a.stdout[-300:], a.stderr[-300:])
             continue
+        files = [l[6:].strip() for l in open("%s/%s/patch.diff" % (V, i)) if l.startswith("+++ b/")]
+        for f in set(files + prev_files):       # rsync restores old mtimes: make cargo see both the reverted and the patched files as changed
+            if os.path.exists(os.path.join(repo, f)):
+                os.utime(os.path.join(repo, f))
+        prev_files = files
         lock = open(V + "/.cache/lock", "w")
         fcntl.flock(lock, fcntl.LOCK_EX)
         try:
-            r = sh("%s/bin/extract.sh %s %s %s/.cache/target" % (V, out, repo, V))
+            r = sh("CKB_FACTS_INCREMENTAL=1 %s/bin/extract.sh %s %s %s/.cache/target" % (V, out, repo, V))
         finally:
             fcntl.flock(lock, fcntl.LOCK_UN)
             lock.close()
         if r.returncode:
             print(i, "EXTRACT FAILED", r.stderr[-600:])
             continue
+        have = {f.rsplit("-", 1)[0] for f in os.listdir(out) if f.endswith(".jsonl")}
+        for bf in base_sha:
+            if bf.rsplit("-", 1)[0] not in have:
+                os.symlink(os.path.join(base, bf), os.path.join(out, bf))
         changed = []
         for f in sorted(os.listdir(out)):
             if not f.endswith(".jsonl"):
@@ -78,6 +95,8 @@ def main():
             crate = f.rsplit("-", 1)[0]
             cands = [b for b in base_sha if b.rsplit("-", 1)[0] == crate]
             p = os.path.join(out, f)
+            if os.path.islink(p):
+                continue
             same = [b for b in cands if os.path.getsize(os.path.join(base, b)) == os.path.getsize(p) and base_sha[b] == sha(p)]
             if same:
                 os.remove(p)
